@@ -230,6 +230,7 @@ static bool nparty_once(std::vector<std::pair<std::string, std::string> > &pendi
 		res << "qual="; for (size_t k = 0; k < edcf.rvss->Qual.size(); k++) res << (k ? "," : "") << edcf.rvss->Qual[k]; res << "\n";
 		res << "C="; for (size_t j = 0; j < n; j++) res << (j ? "," : "") << hx(edcf.rvss->C_ik[j][0]); res << "\n";
 		// the party's private shares of every dealer and its view of all commitments
+		for (size_t k = 0; k < n; k++) res << "deal" << k << "=" << hx(edcf.rvss->alpha_ij[i][k]) << "," << hx(edcf.rvss->hatalpha_ij[i][k]) << "\n";     // the shares this party dealt
 		for (size_t j = 0; j < n; j++) { res << "sh" << j << "=" << hx(edcf.rvss->alpha_ij[j][i]) << "," << hx(edcf.rvss->hatalpha_ij[j][i]) << "\n";
 			res << "cm" << j << "="; for (size_t k = 0; k <= t; k++) res << (k ? "," : "") << hx(edcf.rvss->C_ik[j][k]); res << "\n"; }
 		{ std::string l = err.str(); if (l.size() > 1500 && !getenv("VERIF_DEBUG")) l = l.substr(l.size() - 1500); std::replace(l.begin(), l.end(), '\n', '~'); res << "log=" << l << "\n"; }
@@ -244,9 +245,10 @@ static bool nparty_once(std::vector<std::pair<std::string, std::string> > &pendi
 		// a dealer that ignores a complaint stays in Qual and its victim keeps the wrong share (finding nparty-unanswered-complaint):
 		// the consequences in such a scripted run are reported under that key
 		bool ignored = false; for (auto &d : devs) if (d.second.answer == 3) ignored = true;
-		if (ignored) for (auto &f : fails) if (f.first == "nparty-coins-differ" || f.first == "nparty-stale-share") f.first = "nparty-unanswered-complaint";
+		if (ignored) for (auto &f : fails) if (f.first == "nparty-coins-differ" || f.first == "nparty-stale-share" || f.first == "nparty-coin-not-sum") f.first = "nparty-unanswered-complaint";
 		if (fails.empty()) { for (auto &r : recs) { fputs(r.c_str(), stdout); } return true; }
 		if (FR.timing_trouble()) { fprintf(stderr, "c17: nparty inconclusive (time-out expired in the run; %s): %s\n", fails[0].first.c_str(), ctx.c_str()); pending = fails; return false; }
+		for (auto &r : recs) fputs(r.c_str(), stdout);       // the views of a conclusive run are compared with the model in any case
 		for (auto &f : fails) verif::propfail(f.first, f.second);
 		return true; };
 	if (FR.timed_out) { propfail("nparty-timeout", "n-party Flip did not finish within the wall-clock limit: " + ctx); return finish(); }
@@ -260,7 +262,7 @@ static bool nparty_once(std::vector<std::pair<std::string, std::string> > &pendi
 		if (first) { qual = res_get(FR.text[i], "qual"); coin = res_get(FR.text[i], "coin"); first = false; }
 		else if (qual != res_get(FR.text[i], "qual") || coin != res_get(FR.text[i], "coin")) {
 			propfail("nparty-coins-differ", "honest parties disagree: P" + std::to_string(i) + " coin=" + res_get(FR.text[i], "coin") + " qual=" + res_get(FR.text[i], "qual") + " vs coin=" + coin + " qual=" + qual + ": " + ctx);
-			return finish();
+			/* go on: the views are still recorded and the share oracles evaluated */
 		}
 	}
 	if (first) return finish();
@@ -321,6 +323,40 @@ static bool nparty_once(std::vector<std::pair<std::string, std::string> > &pendi
 			members += Cs[j] + "," + hx(aj) + "," + hx(bj) + "," + rec;
 			mpz_clear(aj); mpz_clear(bj); }
 		recs.push_back("REC flipN " + hx(G.p) + " " + hx(G.q) + " " + hx(G.g) + " " + hx(G.h) + " " + (members.empty() ? "_" : members) + " coin:" + res_get(FR.text[i], "coin") + "\n");
+	}
+	// ---- each honest party's view of the members of Qual -> its coin (model: flipN_party), without scripted silence
+	if (known && !silence) {
+		auto opening_of = [&](size_t j) -> std::string {        // what member j broadcast as its opening
+			mpz_t a, b; mpz_init(a); mpz_init(b); mpz_set_str(a, res_get(FR.text[j], "a").c_str(), 16); mpz_set_str(b, res_get(FR.text[j], "hata").c_str(), 16);
+			if (lib_faulty[j]) { mpz_add_ui(a, a, 1); if (fr[j]) mpz_add_ui(b, b, 1); }
+			if (devs.count(j) && devs.at(j).opening == 1) { mpz_add_ui(a, a, 1); mpz_mod(a, a, G.q); }
+			std::string r = hx(a) + "|" + hx(b); mpz_clear(a); mpz_clear(b); return r; };
+		for (size_t i = 0; i < n; i++) if (!faulty[i]) {
+			std::string members; bool okv = true;
+			for (auto &js : Q) { if (js.empty()) continue; size_t j = strtoul(js.c_str(), 0, 10);
+				std::string cm = res_get(FR.text[i], "cm" + std::to_string(j)), own = res_get(FR.text[i], "sh" + std::to_string(j)), shs;
+				for (auto &ks : Q) { if (ks.empty()) continue; size_t k = strtoul(ks.c_str(), 0, 10); if (k == i) continue;
+					std::vector<std::string> sk = split(res_get(FR.text[k], "sh" + std::to_string(j)), ','); if (sk.size() != 2) { okv = false; break; }
+					shs += (shs.empty() ? "" : ",") + hx((unsigned long)k) + ":" + sk[0] + ":" + sk[1]; }
+				if (cm.empty() || own.empty()) okv = false;
+				members += (members.empty() ? "" : ";") + hx((unsigned long)j) + "|" + cm + "|" + opening_of(j) + "|" + own + "|" + (shs.empty() ? "_" : shs); }
+			if (okv && !members.empty()) recs.push_back("REC flipN_view " + hx(G.p) + " " + hx(G.q) + " " + hx(G.g) + " " + hx(G.h) + " " + hx((unsigned long)t) + " " + hx((unsigned long)i) + " " + members + " coin:" + res_get(FR.text[i], "coin") + "\n");
+		}
+		// ---- RVSS::Share at every honest party for a scripted dealer: received share, complaints, answers -> qualified?, final share
+		for (auto &dv : devs) { size_t d = dv.first; const Deviation &D = dv.second; if (D.answer == 2 || !D.drop.empty()) continue;
+			std::string answers; std::set<size_t> vs(D.wrong);
+			if (D.answer != 3) for (size_t v : vs) { std::vector<std::string> sv = split(res_get(FR.text[d], "deal" + std::to_string(v)), ','); if (sv.size() != 2) continue;
+				mpz_t a; mpz_init(a); mpz_set_str(a, sv[0].c_str(), 16); if (D.answer == 1) { mpz_add_ui(a, a, 1); mpz_mod(a, a, G.q); }
+				answers += (answers.empty() ? "" : ",") + hx((unsigned long)v) + ":" + hx(a) + ":" + sv[1]; mpz_clear(a); }
+			for (size_t i = 0; i < n; i++) if (!faulty[i]) {
+				std::vector<std::string> sv = split(res_get(FR.text[d], "deal" + std::to_string(i)), ','); if (sv.size() != 2) continue;
+				mpz_t a; mpz_init(a); mpz_set_str(a, sv[0].c_str(), 16); if (vs.count(i)) { mpz_add_ui(a, a, 1); mpz_mod(a, a, G.q); }
+				bool inq = std::find(Q.begin(), Q.end(), std::to_string(d)) != Q.end();
+				recs.push_back("REC rvss_dealer " + hx(G.p) + " " + hx(G.q) + " " + hx(G.g) + " " + hx(G.h) + " " + hx((unsigned long)t) + " " + hx((unsigned long)i) + " " +
+					res_get(FR.text[i], "cm" + std::to_string(d)) + " " + hx(a) + "," + sv[1] + " " + hx((unsigned long)vs.size()) + " " + (answers.empty() ? "_" : answers) + " " +
+					(inq ? "qual:" + res_get(FR.text[i], "sh" + std::to_string(d)) : "disqualified") + "\n");
+				mpz_clear(a); }
+		}
 	}
 	mpz_clear(sum); mpz_clear(v);
 	fprintf(stderr, "c17: nparty %s wall=%.2fs\n", ctx.substr(0, 40).c_str(), FR.wall);
